@@ -234,7 +234,7 @@ def visible (handlerObservable : Bool) (t : List Ev) : List Ev :=
 
 /-- The facts of today's source. -/
 def codeFacts : Facts :=
-  { firstOutermost := Mcp.Gen.mwLoopDescending && Mcp.Gen.mwHandleRequestRunsChain
+  { firstOutermost := Mcp.Gen.mwLoopDescending
     notifBypass := Mcp.Gen.mwNotificationsBypass
     codeStreamable := Mcp.Gen.mwInternalCodeStreamable
     codeSSE := Mcp.Gen.mwInternalCodeSSE }
